@@ -425,7 +425,8 @@ pub fn gen(r: &mut Rng, thorough: bool) -> Vec<(String, String)> {
     let nl = if thorough { 12 } else { 4 };
     for it in 0..nl {
         let nops = if thorough { 200 + r.below(100) as usize } else { 50 + r.below(40) as usize };
-        let (h, _, _) = long_mixed_history(r, nops, it % 2 == 0);
+        let (mut h, _, _) = long_mixed_history(r, nops, it % 2 == 0);
+        if !h.ops.last().map(|o| o.starts_with("F ")).unwrap_or(false) { let m = gen_margin(r, it % 2 == 0); h.refit(m); }
         v.push(((if it % 2 == 0 { "topo" } else { "acc" }).to_string(), h.args()));
     }
     // rebalance with pending updates (structure only)
